@@ -208,3 +208,14 @@ var round19Explanations = map[string]string{
 	"C19": " (R18) C20.R3 evaluated for this property.",
 	"C20": " (R12) neither v2.TLSConfig nor *v2.TLSConfig has a method UnmarshalJSON. (R3) a MakeMap whose reference-typed elements were ranged or looked up out of a non-fresh container is not fresh when it is handed to a callee that writes through the parameter.",
 }
+
+var round20Explanations = map[string]string{
+	"C03": " (R25) in onUpstreamHeaders no path restricted to the edges on which the retry check equals ShouldRetry reaches the setupRetry call without a nil store into downStream.downstreamRespHeaders (or setupRetry clears the field before every return true).",
+	"C08": " (SERVE) every utils.GoWithRecover of pkg/stream/http whose body calls serve() has a handler function from which a two-argument Close is statically reachable.",
+	"C09": " (R16) sendKeepAlive stores the result of GetStream() into keepAliveTimeout.stream before kp.store; HandleTimeout calls ResetStream on the stream field of the value loadAndDelete returned.",
+	"C11": " (O26) for every method of StageManager with a value receiver: no Store through, no method call on a field of, and no pointer-method call on the receiver cell.",
+	"C14": " (R22) the key of every MapUpdate / Lookup on IpList.ips derives from a (net.IP).String call.",
+	"C16": " (R8) no ssa.Send on a sessionChecker channel field; every blocking ssa.Select with a send state on such a field also has a receive state on the stop field.",
+	"C17": " (R28) extended by RouterActionConfig.AutoHostRewriteHeader <- GetHostRewriteHeader.",
+	"C18": " (W22) the value of every (*MFramer).writeData call derives into a Return operand of its function (or is stored into the result cell the return loads). (W23) every MakeInterface of ConnectionError(ErrCodeFlowControl) in MServerConn/MClientConn.processWindowUpdate lies under a dominating edge on which the pointer to the struct with the flow field is nil. (W24) every MakeInterface of a streamError(id, code != ErrCodeFlowControl) call in MServerConn.processData is dominated by a sendWindowUpdate / sendWindowUpdate32 call whose stream argument is nil.",
+}
